@@ -1,7 +1,90 @@
 import PprofVerif.Base.Tok
-/- Driver operations for C15. -/
+import PprofVerif.Model.Measure
+import PprofVerif.Spec.Units
+/- Driver operations for C15 (unit conversion and value formatting). -/
 namespace Driver.C15
-open PV
+open PV PV.Measure
 
-def ops : List (String × (List String → String)) := []
+def wrQ (q : Q) : Wr := [toString q.num, toString q.den]
+
+def wrUnit (u : MUnit) : Wr := Wr.str u.name ++ Wr.list Wr.str u.aliases ++ [toString u.fnum, toString u.fden]
+
+def wrFamily (F : Family) : Wr := Wr.str F.name ++ wrUnit F.default ++ Wr.list wrUnit F.units
+
+def wrSUnit (u : Spec.Units.SUnit) : Wr :=
+  Wr.str u.display ++ Wr.list Wr.str u.names ++ [toString u.num, toString u.den]
+
+def wrSFamily (F : Spec.Units.SFamily) : Wr := Wr.str F.default ++ Wr.list wrSUnit F.units
+
+def rdVT : Rd VT := do
+  let t ← Rd.str
+  let u ← Rd.str
+  pure { typ := t, unit := u }
+
+def wrVT (v : VT) : Wr := Wr.str v.typ ++ Wr.str v.unit
+
+def rdProf : Rd MProf := do
+  let pt ← Rd.opt rdVT
+  let period ← Rd.int
+  let sts ← Rd.list rdVT
+  let ss ← Rd.list (Rd.list Rd.int)
+  pure { periodType := pt, period := period, sampleTypes := sts, samples := ss }
+
+/-- reply: period type, exact period, new sample types, exact ratios (the scaled values are
+`value * ratio`; the harness recomputes them) -/
+def wrProfOut (p : MProfOut) : Wr :=
+  Wr.opt wrVT p.periodType ++ wrQ p.period ++ Wr.list wrVT p.sampleTypes ++ Wr.list wrQ p.ratios
+
+def clsName : PctClass → String
+  | .hundred => "hundred"
+  | .fixed => "fixed"
+  | .short => "short"
+
+def ops : List (String × (List String → String)) := [
+  -- the regenerated table, as the model sees it
+  ("c15.table", fun _ => Wr.render (Wr.list wrFamily table)),
+  -- the hand-written dictionary of unit meanings
+  ("c15.spec", fun _ => Wr.render (Wr.list wrSFamily Spec.Units.spec)),
+  -- spec: which unit does this string denote?  `0` | `1 <family index> <display> <num> <den>`
+  ("c15.recognise", fun ts =>
+    match Rd.run Rd.str ts with
+    | none => "bad-op"
+    | some s =>
+      match Spec.Units.recognise s with
+      | none => "0"
+      | some (i, u) => Wr.render (["1", toString i] ++ Wr.str u.display ++ [toString u.num, toString u.den])),
+  -- model: Scale(v, from, to) -> `<num> <den> <unit>`
+  ("c15.scale", fun ts =>
+    match Rd.run (do let v ← Rd.int; let f ← Rd.str; let t ← Rd.str; pure (v, f, t)) ts with
+    | none => "bad-op"
+    | some (v, f, t) => let r := scale table v f t; Wr.render (wrQ r.1 ++ Wr.str r.2)),
+  -- model: ScaledLabel(v, from, to) -> rounded number and unit suffix
+  ("c15.label", fun ts =>
+    match Rd.run (do let v ← Rd.int; let f ← Rd.str; let t ← Rd.str; pure (v, f, t)) ts with
+    | none => "bad-op"
+    | some (v, f, t) => let r := label table v f t; Wr.render (wrQ r.1 ++ Wr.str r.2)),
+  -- model: Percentage(v, total) -> ratio and formatting class
+  ("c15.pct", fun ts =>
+    match Rd.run (do let v ← Rd.int; let t ← Rd.int; pure (v, t)) ts with
+    | none => "bad-op"
+    | some (v, t) => let r := percentage v t; Wr.render (wrQ r.1 ++ [clsName r.2])),
+  -- model: CommonValueType
+  ("c15.common", fun ts =>
+    match Rd.run (Rd.list rdVT) ts with
+    | none => "bad-op"
+    | some l =>
+      match commonValueType table l with
+      | .ok c => Wr.render ("ok" :: Wr.opt wrVT c)
+      | .err _ => "err"
+      | .panic s => "panic " ++ s),
+  -- model: ScaleProfiles
+  ("c15.scaleprofiles", fun ts =>
+    match Rd.run (Rd.list rdProf) ts with
+    | none => "bad-op"
+    | some ps =>
+      match scaleProfiles table ps with
+      | .ok out => Wr.render ("ok" :: Wr.list wrProfOut out)
+      | .err _ => "err"
+      | .panic s => "panic " ++ s)
+]
 end Driver.C15
